@@ -182,5 +182,13 @@ def g_objects(tier, seed):
     return out or [ob.res('O2', 'objects', 'inconclusive', [], 'no path')]
 
 
+def g_sequence(tier, seed, temporaries=False):
+    from checks.c04 import seq_group
+    return seq_group(PID, 'O2', 'vincinv' + (' (temporary ellipsoid objects)' if temporaries else ''), lambda gd, v, e: gd.vincinv(v[0], v[1], v[2], v[3], e),
+                     (('lat1', -90, 90), ('lon1', -180, 180), ('lat2', -90, 90), ('lon2', -180, 180)), 'oracles.c04:inverse_sequence',
+                     '1/1000000000000', tier, temporaries)
+
+
 def groups(tier):
-    return [('inverse', g_inverse), ('shift', g_shift), ('cap', g_cap), ('objects', g_objects)]
+    return [('inverse', g_inverse), ('shift', g_shift), ('cap', g_cap), ('objects', g_objects), ('sequence', g_sequence),
+            ('sequence_temporaries', lambda tier, seed: g_sequence(tier, seed, True))]
